@@ -35,7 +35,10 @@ int main(int argc, char **argv){
     for (int p=0;p<3;p++){ std::vector<double> c(d), x(d); for (int j=0;j<d;j++){ c[j] = -0.83 + 0.47 * p + 0.11 * j; x[j] = L(j, c[j]); }
       std::vector<double> yb, yc; gb.evaluate(x, yb); gc.evaluate(c, yc);
       for (int k=0;k<outs;k++) fpsym_eq(yb[k], yc[k], sc, "conformal + linear: evaluate(L(c)) equals the conformal-only surrogate at c (the maps compose)"); }
-    std::vector<double> wc = gc.getQuadratureWeights(), wb = gb.getQuadratureWeights(); double f = 1.0; for (int j=0;j<d;j++) f *= 0.5 * (tb[j] - ta[j]);
+    std::vector<double> wc = gc.getQuadratureWeights(), wb = gb.getQuadratureWeights(); double al2 = g.alpha, be2 = g.beta;
+    if (g.rule.find("chebyshev1") != std::string::npos) al2 = be2 = -0.5; if (g.rule.find("chebyshev2") != std::string::npos) al2 = be2 = 0.5; if (g.rule.find("gegenbauer") != std::string::npos) be2 = al2;
+    bool jacf = g.rule.find("gauss-chebyshev") != std::string::npos || g.rule.find("gegenbauer") != std::string::npos || g.rule.find("jacobi") != std::string::npos;
+    double f = 1.0; for (int j=0;j<d;j++) f *= jacf ? std::pow(0.5 * (tb[j] - ta[j]), al2 + be2 + 1.0) : 0.5 * (tb[j] - ta[j]);   // the documented factor of the rule family
     bool wok = wc.size() == wb.size(); for (size_t i=0;i<wc.size() && wok;i++) if (std::fabs(wb[i] - wc[i] * f) > 1e-10 * (1.0 + std::fabs(wc[i] * f))) wok = false;
     fpsym_check(wok, "conformal + linear: quadrature weights are the conformal-only weights times the volume factor");
     if (model.symbolic) fpsym_nonconst(vals[0], "witness: values are symbolic");
